@@ -33,13 +33,45 @@ theorem wr_append_mid' {α} (P : List α) (x y : α) (T : List α) (i : Nat) (h 
 
 /-! ### the size store -/
 
+/-- a chain all of whose links are sound (`Link.sound`: the condition implies that the selected type holds `N`)
+    selects, for every `n` the fall-back type can hold, a type that holds `n` — whatever the thresholds are -/
+theorem pick_fits (n : Nat) : ∀ (chain : List Link) (fb : CTy), chain.all Link.sound = true → n < 2 ^ fb.bits →
+    n < 2 ^ (pick n chain fb).bits := by
+  intro chain
+  induction chain with
+  | nil => intro fb _ h; exact h
+  | cons l ls ih =>
+    intro fb hs hfb
+    simp only [List.all_cons, Bool.and_eq_true] at hs
+    simp only [pick]
+    split
+    · rename_i hh
+      have h1 := hs.1
+      unfold Link.holds at hh
+      unfold Link.sound at h1
+      cases hc : l.cmp <;> simp only [hc, decide_eq_true_eq] at hh h1 <;> omega
+    · exact ih fb hs.2 hfb
+
+/-- the chain of the header under check is sound (finite check over the generated list) -/
+theorem genChain_sound : GenSize.chain.all Link.sound = true ∧ GenSize.fallback.bits = 64 := by decide
+
 theorem smallestBits_fits (cap : Nat) (h : cap < 2 ^ 64) : cap < 2 ^ smallestBits cap := by
   unfold smallestBits
-  split
-  · omega
-  · split
-    · omega
-    · split <;> omega
+  exact pick_fits cap _ _ genChain_sound.1 (by rw [genChain_sound.2]; exact h)
+
+/-- closed form of the generated chain (for the header as it is: `N < 255`, `N < 65535`, `N < 2^32 - 1`) -/
+theorem smallestBits_closed (n : Nat) :
+    smallestBits n = if n < 255 then 8 else if n < 65535 then 16 else if n < 4294967295 then 32 else 64 := by
+  simp only [smallestBits, GenSize.chain, GenSize.fallback, pick, Link.holds, Bound.eval, CTy.bits,
+    Nat.reducePow, Nat.reduceSub]
+  by_cases h1 : n < 255
+  · simp [h1]
+  · by_cases h2 : n < 65535
+    · simp [h1, h2]
+    · by_cases h3 : n < 4294967295
+      · simp [h1, h2, h3]
+      · simp only [h1, h2, h3, if_false, decide_false, Bool.false_eq_true]
+        by_cases h4 : n < 18446744073709551615 <;> simp [h4]
 
 theorem setSize_ok {cap n : Nat} (hc : cap < 2 ^ 64) (hn : n ≤ cap) : setSize cap n = .ok () := by
   have hf := smallestBits_fits cap hc
